@@ -3,10 +3,10 @@
 (* specification and the recorded child must be Child(R, post-state).      *)
 (* Stack events: slicing a stacked series returns the originals.           *)
 EXTENDS ImageOps, TLC, Json, IOUtils
-VARIABLES l, R, st
+VARIABLES l, R, st, hs      \* hs: the states of the images of the running program (root first), for re-reading them later
 Lines == TLCGet(7)
 NoRoot == [shape |-> <<1>>, T |-> 0, comps |-> 0, timekind |-> "none", dtype |-> "float64"]
-Init == TLCSet(7, ndJsonDeserialize(IOEnv.TRACE_FILE)) /\ l = 1 /\ R = NoRoot /\ st = InitState(NoRoot)
+Init == TLCSet(7, ndJsonDeserialize(IOEnv.TRACE_FILE)) /\ l = 1 /\ R = NoRoot /\ st = InitState(NoRoot) /\ hs = <<>>
 
 Enabled(e) == CASE e.op = "sub" -> SubEnabled(st, e.roi)
                 [] e.op = "tslice" -> TSliceEnabled(st, e.i)
@@ -27,24 +27,31 @@ Step(e) ==
   IF e.op = "root" THEN
      /\ R' = [shape |-> e.shape, T |-> e.T, comps |-> e.comps, timekind |-> e.timekind, dtype |-> e.dtype]
      /\ st' = InitState([shape |-> e.shape, T |-> e.T, comps |-> e.comps, timekind |-> e.timekind, dtype |-> e.dtype])
+     /\ hs' = <<st'>>
      /\ LET m == Mismatch(R', st', e.child) IN IF m = {} THEN TRUE ELSE PrintT(<<"BAD", e.tid, l, m>>)
+  ELSE IF e.op = "again" THEN         \* image k of the program read again after the caller worked on (rebound, appended to) its last result
+     /\ UNCHANGED <<R, st, hs>>
+     /\ (IF e.k < 1 \/ e.k > Len(hs) THEN PrintT(<<"BAD", e.tid, l, "HarnessScenarioNotEnabled">>)
+         ELSE LET m == Mismatch(R, hs[e.k], e.child) IN
+              IF m = {} THEN TRUE ELSE PrintT(<<"BAD", e.tid, l, {"SourceUnaffectedByWorkOnExtract"}>>))
   ELSE IF e.op = "diffroi" THEN       \* physical box = voxel box of its converted corners (both raise on an empty box, or neither)
-     /\ UNCHANGED <<R, st>>
+     /\ UNCHANGED <<R, st, hs>>
      /\ LET f == (IF e.raised_phys # e.raised_vox THEN {"PhysicalBoxTotalLikeVoxelBox"} ELSE {})
                   \cup (IF e.raised_phys = 0 /\ e.raised_vox = 0 /\ e.same_data = 0 THEN {"PhysicalBoxSelectsVoxelBox"} ELSE {})
                   \cup (IF e.raised_phys = 0 /\ e.raised_vox = 0 /\ e.same_place = 0 THEN {"PhysicalPlacement"} ELSE {})
                   \cup (IF e.raised_phys = 0 /\ e.raised_vox = 0 /\ e.same_meta = 0 THEN {"PayloadLayout"} ELSE {})
         IN IF f = {} THEN TRUE ELSE PrintT(<<"BAD", e.tid, l, f>>)
   ELSE IF e.op = "stack" THEN
-     /\ UNCHANGED <<R, st>>
+     /\ UNCHANGED <<R, st, hs>>
      /\ (IF e.raised = 1 THEN PrintT(<<"BAD", e.tid, l, "StackTotal">>)
          ELSE LET f == StackVerdict(e) IN IF f = {} THEN TRUE ELSE PrintT(<<"BAD", e.tid, l, f>>))
   ELSE IF ~Enabled(e) THEN
-     /\ UNCHANGED <<R, st>>
+     /\ UNCHANGED <<R, st, hs>>
      /\ PrintT(<<"BAD", e.tid, l, "HarnessScenarioNotEnabled">>)
   ELSE
      /\ R' = R
      /\ st' = Post(e)
+     /\ hs' = Append(hs, st')
      /\ (IF e.raised = 1 THEN PrintT(<<"BAD", e.tid, l, "ExtractionTotal">>)
          ELSE LET m == Mismatch(R, Post(e), e.child) IN
               IF m = {} THEN TRUE ELSE PrintT(<<"BAD", e.tid, l, m>>))
@@ -52,5 +59,5 @@ Next == /\ l <= Len(Lines)
         /\ Step(Lines[l])
         /\ l' = l + 1
         /\ (l' > Len(Lines) => PrintT(<<"DONE", Len(Lines)>>))
-Spec == Init /\ [][Next]_<<l, R, st>>
+Spec == Init /\ [][Next]_<<l, R, st, hs>>
 =============================================================================
